@@ -35,6 +35,19 @@ static int compare_int64(const void* a, const void* b) {
     return (va > vb) - (va < vb);
 }
 
+static int compare_int96(const void* a, const void* b) {
+    /* INT96: three little-endian uint32 words, compared from high to low
+     * (the order the statistics builder uses) */
+    const uint32_t* va = (const uint32_t*)a;
+    const uint32_t* vb = (const uint32_t*)b;
+    for (int i = 2; i >= 0; i--) {
+        if (va[i] != vb[i]) {
+            return (va[i] > vb[i]) - (va[i] < vb[i]);
+        }
+    }
+    return 0;
+}
+
 static int compare_float(const void* a, const void* b) {
     float va = *(const float*)a;
     float vb = *(const float*)b;
@@ -81,6 +94,8 @@ static compare_fn_t get_compare_fn(carquet_physical_type_t type) {
             return compare_int32;
         case CARQUET_PHYSICAL_INT64:
             return compare_int64;
+        case CARQUET_PHYSICAL_INT96:
+            return compare_int96;
         case CARQUET_PHYSICAL_FLOAT:
             return compare_float;
         case CARQUET_PHYSICAL_DOUBLE:
@@ -96,6 +111,7 @@ static int32_t get_compare_width(carquet_physical_type_t type) {
         case CARQUET_PHYSICAL_BOOLEAN: return 1;
         case CARQUET_PHYSICAL_INT32:   return 4;
         case CARQUET_PHYSICAL_INT64:   return 8;
+        case CARQUET_PHYSICAL_INT96:   return 12;
         case CARQUET_PHYSICAL_FLOAT:   return 4;
         case CARQUET_PHYSICAL_DOUBLE:  return 8;
         default:                       return 0;
